@@ -25,6 +25,9 @@
     The kinds of name function the extractor recognises in _pickle_name:
       NameStr   f"{k}.p"        the code as found: 1 and "1" share the file 1.p
       NameRepr  f"{k!r}.p"      the repair (fixes/C19-name-fn.diff): injective on the universe
+      NameReprEsc  the second repair (fixes/C19-slash-in-key.diff): repr with "%" -> "%25", "/" -> "%2F";
+                still injective, and every name is a single path component (a key such as "ATP/ADP"
+                cannot be cached under NameRepr: its file would lie in a sub-directory that does not exist)
       NameHash  f"{hash(k)}.p"  (seeded/C19-3) collides on -1 / -2 and depends on the per-process
                                 string-hash salt
     [name_of kind strhash salt k] takes the salt of the interpreter and the (external) salted string
@@ -38,7 +41,9 @@ Inductive key :=
 | KInt (z : Z) | KBool (b : bool) | KNone
 | KFloat (lit : list ascii) | KStr (s : list ascii) | KTuple (l : list key).
 
-Inductive name_kind := NameStr | NameRepr | NameHash | NameUnknown.
+(* NameReprEsc: f"{k!r}.p" with "%" and "/" of the repr percent-encoded (fixes/C19-slash-in-key.diff): the
+   name is a single path component whatever the key *)
+Inductive name_kind := NameStr | NameRepr | NameReprEsc | NameHash | NameUnknown.
 
 Definition chars (s : string) : list ascii := list_ascii_of_string s.
 
@@ -124,7 +129,29 @@ Definition py_hash (strhash : N -> list ascii -> Z) (salt : N) (k : key) : optio
   | _ => None
   end.
 
+Fixpoint list_ascii_eqb (a b : list ascii) : bool :=
+  match a, b with
+  | [], [] => true
+  | x :: a', y :: b' => Ascii.eqb x y && list_ascii_eqb a' b'
+  | _, _ => false
+  end.
+
 Definition dot_p : list ascii := chars ".p".
+
+(** percent-encoding of the two characters that must not reach the file name as they are: "/" (the path
+    separator: the name would point into a sub-directory that does not exist) and "%" itself (so that the
+    encoding can be read back):  repr(k).replace("%", "%25").replace("/", "%2F") *)
+Definition pct1 (c : ascii) : list ascii :=
+  if Ascii.eqb c "%" then ["%"; "2"; "5"]
+  else if Ascii.eqb c "/" then ["%"; "2"; "F"]
+  else [c].
+Definition pct (l : list ascii) : list ascii := flat_map pct1 l.
+
+(** a file name that open() takes for an entry of the cache directory itself: a single path component *)
+Definition is_component (l : list ascii) : bool :=
+  negb (existsb (Ascii.eqb "/") l)
+  && match l with [] => false | _ => true end
+  && negb (list_ascii_eqb l ["."]) && negb (list_ascii_eqb l ["."; "."]).
 
 (** the default name_fn, by kind; [None]: not modelled (unknown shape of _pickle_name, or a hash of
     a key type whose hash is not modelled) *)
@@ -133,6 +160,7 @@ Definition name_of (kind : name_kind) (strhash : N -> list ascii -> Z) (salt : N
   match kind with
   | NameStr => Some (py_str k ++ dot_p)
   | NameRepr => Some (py_repr k ++ dot_p)
+  | NameReprEsc => Some (pct (py_repr k) ++ dot_p)
   | NameHash => match py_hash strhash salt k with Some h => Some (dec h ++ dot_p) | None => None end
   | NameUnknown => None
   end.
